@@ -186,7 +186,7 @@ def run_e1(res, tier):
                     continue
                 for f in imp["items"]:
                     if f.get("k") == "fn" and f["name"] in ("deserialize", "dispatch") and "body" in f:
-                        called = set(re.findall(r"(\w+)_messages\(\)", norm(f["body"])))
+                        called = set(re.findall(r"\b(\w+)_messages\s*\(\s*\)", f["body"]))   # on the spaced token text: identifiers stay apart
                         want = {model.EP_NAME[k]}
                         if called != want:
                             res.violation({"kind": "static", "cls": "tables", "pid": o["id"], "program": src,
